@@ -87,6 +87,14 @@ def gen(rng, tier):
         # an honest libsodium sender's message of the smallest critical length, opened by dryoc (libsodium's push over 256 GiB: minutes)
         cs.append(Case("stream_huge pull %d" % (64 * (2 ** 32 - 3) + 1), cls="stream-huge/pull", expect=totality,
                        meta={"no_sodium": True, "no_spec": True, "alloc_bound": 1 << 20, "why": "pull of an authentic 256 GiB message made by libsodium must be Ok or Err"}))
+    # OBSERVATIONS of the C04 header, kept honest by running them: containers whose type does not carry the length (`Vec<u8>` as
+    # `ByteArray<N>`) handed to `DryocStream::init_pull` — a panic for a short one (the model says exactly when), the prefix view for a
+    # longer one — and `Tag::from(u8)` on a byte with undefined bits.  Judged against the Lean model only (a panic is the modelled answer).
+    for kl in (0, 31, 32, 33, 48):
+        for hl in (0, 23, 24, 25, 40):
+            cs.append(Case("stream_init_pull_view %s %s" % (hx(rbytes(rng, kl)), hx(rbytes(rng, hl))), cls="observation/init_pull-view", meta={"panic_ok": True, "no_sodium": True}))
+    for b in range(256):
+        cs.append(Case("tag_from_u8 %02x" % b, cls="observation/tag-from-u8", meta={"panic_ok": True, "no_sodium": True}))
     if signfam:
         cs += signfam.c04_cases(rng, tier)
     if pwfam:
